@@ -199,9 +199,8 @@ Print Assumptions C11_x86_substitute_simultaneous.
 
 (* AArch64 and RISC-V: their Temporary orders and numberings satisfy `backend_ok`, so
    C11_substitute_graph_indeg1 / C11_substitute_graph_edges / C11_weakening_contraction_counts hold for
-   their models too.  At the instruction level the property is checked for these two back ends (the
-   emitted instructions are executed on Sem/A64Sem.v and Sem/RVSem.v, exhaustively for m,n <= 5), not
-   proved. *)
+   their models too; the instruction-level statements for these two back ends follow below
+   (theorems named C11_a64_... and C11_rv_...). *)
 From SCC Require Model.A64 Model.RV Proof.SubstBackends.
 Theorem C11_a64_backend_ok : backend_ok A64.a64_backend.
 Proof. exact SubstBackends.a64_backend_ok. Qed.
@@ -209,3 +208,164 @@ Print Assumptions C11_a64_backend_ok.
 Theorem C11_rv_backend_ok : backend_ok RV.rv_backend.
 Proof. exact SubstBackends.rv_backend_ok. Qed.
 Print Assumptions C11_rv_backend_ok.
+
+(* ======================================================================================== *)
+(* AArch64: the same statements about the INSTRUCTIONS, on the ISA semantics Sem/A64Sem.v.    *)
+(* Proofs: Proof/A64PM.v (moves; also exported as C07_selection_parallel_moves),              *)
+(* Proof/A64MemSubst.v (share/erase), Proof/A64Subst.v (frame of the moves, whole Substitute).*)
+(* Scratch state of this back end: X2 (TEMP: the value that closes a cycle, a spilled pointer *)
+(* of share/erase), X3 (TEMP2: staging register of spill-to-spill moves, the header of        *)
+(* share/erase), the flags.  There is no spill-edge analysis (contains_spill_edge = false):    *)
+(* two scratch registers make it unnecessary.  `operand_ok t`: t is a register Xn other than  *)
+(* X2/X3 or a spill slot below SPILL_NUM - every temporary the numbering hands out is.         *)
+(* ======================================================================================== *)
+From SCC Require Sem.A64Sem Proof.A64State Proof.A64Sel Proof.A64PM Proof.A64Exec Proof.A64MemSubst Proof.A64Subst.
+
+(* (i) the parallel moves: register-register, register-spill, spill-register, spill-spill through X3,
+   cycles broken by one value saved in X2 - run as straight-line code from ANY state with a valid spill
+   frame, for ANY assignment map with in-degree <= 1 over variable temporaries: every target holds the
+   initial value of its source, every other variable location (HEAP = X0 and FREE = X1 included) is
+   unchanged, and so are heap, output, flags, SP and the stack outside the spill area. *)
+Theorem C11_a64_parallel_moves_simultaneous :
+  forall (im : A64Sem.image) (am : amap A64.atemp) (code : list A64.acode) (s : A64Sem.astate) (sp : Z),
+    indeg1 A64.atemp A64PM.a64_teqb am -> nodup_targets A64.atemp A64PM.a64_teqb am ->
+    A64PM.amap_ok A64.atemp A64Sel.operand_ok am ->
+    parallel_moves_code A64.a64_backend am = Ok code ->
+    A64State.frame_ok s sp ->
+    exists s', A64Sem.run_straight im code s = A64Sem.MOk s' /\
+      (forall a b, edge A64.atemp A64PM.a64_teqb am a b -> A64State.lget s' sp b = A64State.lget s sp a) /\
+      (forall u, A64Sel.operand_ok u -> (forall a, ~ edge A64.atemp A64PM.a64_teqb am a u) ->
+                 A64State.lget s' sp u = A64State.lget s sp u) /\
+      A64State.frame_ok s' sp /\ A64Sem.heap s' = A64Sem.heap s /\ A64Sem.out s' = A64Sem.out s /\
+      A64Sem.flags s' = A64Sem.flags s /\
+      (forall k, (forall p, A64State.slot_ok p -> k <> A64Sem.key (A64State.slot_addr sp p)) ->
+                 A64Sem.PM.find k (A64Sem.stack s') = A64Sem.PM.find k (A64Sem.stack s)).
+Proof. exact A64Subst.a64_parallel_moves_frame_ok. Qed.
+Print Assumptions C11_a64_parallel_moves_simultaneous.
+
+Theorem C11_a64_parallel_moves_total :
+  forall am : amap A64.atemp, indeg1 A64.atemp A64PM.a64_teqb am -> exists code, parallel_moves_code A64.a64_backend am = Ok code.
+Proof. exact A64Subst.a64_parallel_moves_total. Qed.
+Print Assumptions C11_a64_parallel_moves_total.
+
+(* (iii) AArch64 meaning of the two reference-count operations, inside any image that contains the code
+   with its own labels.  The header is updated by LDR X3 / ADD|SUB X3 / STR X3; the tests are CMP #0 +
+   B.EQ, i.e. on the 64-bit value (A64Exec.erase_h tests `wrap header = 0`; for a 64-bit header that is
+   `header = 0`, lemma A64Exec.erase_h_in64). *)
+Theorem C11_a64_share_meaning :
+  forall im pc s sp t n lc p f,
+    let code := fst (A64.a_share_block_n t n lc) in
+    A64Exec.code_at im pc code -> A64Exec.labels_at im pc code ->
+    A64State.frame_ok s sp -> A64Sel.operand_ok t ->
+    A64State.lget s sp t = Some p -> (p = 0 \/ A64Exec.block_ok p) ->
+    exists s', A64Exec.exec_to im pc s (A64Exec.padd pc (List.length code)) s' /\
+               (A64Sem.heap s', f) = A64Exec.share_h p (Z.of_N n) (A64Sem.heap s, f) /\
+               (forall r, r <> A64.TEMP -> r <> A64.TEMP2 -> A64Sem.rget s' r = A64Sem.rget s r) /\
+               A64Sem.stack s' = A64Sem.stack s /\ A64Sem.out s' = A64Sem.out s.
+Proof. exact A64MemSubst.a64_share_ok. Qed.
+Print Assumptions C11_a64_share_meaning.
+
+Theorem C11_a64_erase_meaning :
+  forall im pc s sp t lc p f,
+    let code := fst (A64.a_erase_block t lc) in
+    A64Exec.code_at im pc code -> A64Exec.labels_at im pc code ->
+    A64State.frame_ok s sp -> A64Sel.operand_ok t -> t <> A64.AR A64.FREE ->
+    A64State.lget s sp t = Some p -> (p = 0 \/ A64Exec.block_ok p) ->
+    A64Sem.rget s A64.FREE = Some f ->
+    exists s' f', A64Exec.exec_to im pc s (A64Exec.padd pc (List.length code)) s' /\
+               A64Sem.rget s' A64.FREE = Some f' /\
+               (A64Sem.heap s', f') = A64Exec.erase_h p (A64Sem.heap s, f) /\
+               (forall r, r <> A64.TEMP -> r <> A64.TEMP2 -> r <> A64.FREE -> A64Sem.rget s' r = A64Sem.rget s r) /\
+               A64Sem.stack s' = A64Sem.stack s /\ A64Sem.out s' = A64Sem.out s.
+Proof. exact A64MemSubst.a64_erase_ok. Qed.
+Print Assumptions C11_a64_erase_meaning.
+
+(* (iv) THE PROPERTY on AArch64, word for word the x86-64 statement (C11_x86_substitute_simultaneous)
+   with X2, X3 and the flags as scratch state; no bound on the number of variables is needed (the
+   increment is an ADD immediate the semantics does not range-check; its encodability is C14's matter).
+   The hypotheses are satisfiable: Example A64Subst.a64_substitute_hyps_satisfiable (a swap through a
+   cycle, a duplicated object, a dropped object; 26 instructions). *)
+Theorem C11_a64_substitute_simultaneous :
+  forall im pc types ctx re l args lc code lc' s sp f,
+    NoDup (ids ctx) -> NoDup (new_ids re) ->
+    code_statement A64.a64_backend types (Substitute re (Call l args)) ctx lc = Ok (code, lc') ->
+    A64Exec.code_at im pc code -> A64Exec.labels_at im pc code ->
+    A64State.frame_ok s sp -> A64Sem.rget s A64.FREE = Some f ->
+    (forall i b t, nth_error ctx i = Some b -> is_obj b = true -> tpos A64.a64_backend Fst i = Ok t ->
+       exists p, A64State.lget s sp t = Some p /\ (p = 0 \/ A64Exec.block_ok p)) ->
+    exists (s' : A64Sem.astate) (f' : Z) (order : list (nat * binding)) (ptr : nat -> Z),
+      A64Exec.exec_to im pc s (A64Exec.padd pc (List.length code - 1)) s' /\
+      nth_error code (List.length code - 1) = Some (A64.B (show_ident l +++ "_")) /\
+      (forall i j bi pj n a b, nth_error ctx i = Some bi -> nth_error re j = Some pj -> idn (snd pj) = idn (bvar bi) ->
+         (n = Snd \/ bchi bi <> Ext) -> tpos A64.a64_backend n i = Ok a -> tpos A64.a64_backend n j = Ok b ->
+         A64State.lget s' sp b = A64State.lget s sp a) /\
+      Permutation (map snd order) (filter is_obj ctx) /\
+      (forall i b, In (i, b) order -> nth_error ctx i = Some b /\
+                                      exists t, tpos A64.a64_backend Fst i = Ok t /\ A64State.lget s sp t = Some (ptr i)) /\
+      A64Sem.rget s' A64.FREE = Some f' /\
+      (A64Sem.heap s', f') =
+        fold_left (fun hf ib => A64Exec.count_h (ptr (fst ib)) (count_targets re (snd ib)) hf) order (A64Sem.heap s, f) /\
+      (forall u, A64Sel.operand_ok u -> u <> A64.AR A64.FREE ->
+                 (forall j n, tpos A64.a64_backend n j = Ok u -> (List.length re <= j)%nat) ->
+                 A64State.lget s' sp u = A64State.lget s sp u) /\
+      A64Sem.rget s' A64.HEAP = A64Sem.rget s A64.HEAP /\ A64State.frame_ok s' sp /\ A64Sem.out s' = A64Sem.out s /\
+      (forall k, (forall p, A64State.slot_ok p -> k <> A64Sem.key (A64State.slot_addr sp p)) ->
+                 A64Sem.PM.find k (A64Sem.stack s') = A64Sem.PM.find k (A64Sem.stack s)).
+Proof. exact A64Subst.a64_substitute_ok. Qed.
+Print Assumptions C11_a64_substitute_simultaneous.
+
+(* ======================================================================================== *)
+(* RISC-V: every temporary is a register (no spills); moves are MV, a cycle is broken through  *)
+(* X1 (TEMP).  The code contains no stack access at all.  Execution inside an image is the     *)
+(* relation RVSel.star (one step = one step of Sem/RVSem.v, C08_run_chunk_one); RVSel.placed =  *)
+(* the code sits in the image with its own labels.  The heap is seen through RVSel.represents  *)
+(* (words, HEAP = X2, FREE = X3) as in C08's refinement theorems for share/erase, which are    *)
+(* reused here.  Proofs: Proof/RVSubst.v.                                                      *)
+(* ======================================================================================== *)
+From SCC Require Sem.RVSem Proof.RVSel Proof.RVSubst.
+
+Theorem C11_rv_parallel_moves_simultaneous :
+  forall (im : RVSem.image) (i : positive) (am : amap RV.rtemp) (code : list RV.rcode) (s : RVSem.rstate),
+    indeg1 RV.rtemp RVSubst.rv_teqb am -> nodup_targets RV.rtemp RVSubst.rv_teqb am ->
+    A64PM.amap_ok RV.rtemp RVSubst.rv_operand_ok am ->
+    parallel_moves_code RV.rv_backend am = Ok code ->
+    RVSel.at_code im i code ->
+    exists s', RVSel.star im i s (RVSel.padd i (List.length code)) s' /\
+      RVSem.heap s' = RVSem.heap s /\ RVSem.hw s' = RVSem.hw s /\
+      (forall a b, edge RV.rtemp RVSubst.rv_teqb am a b -> RVSem.rget s' b = RVSem.rget s a) /\
+      (forall u, RVSubst.rv_operand_ok u -> (forall a, ~ edge RV.rtemp RVSubst.rv_teqb am a u) -> RVSem.rget s' u = RVSem.rget s u).
+Proof. exact RVSubst.rv_parallel_moves_ok. Qed.
+Print Assumptions C11_rv_parallel_moves_simultaneous.
+
+Theorem C11_rv_parallel_moves_total :
+  forall am : amap RV.rtemp, indeg1 RV.rtemp RVSubst.rv_teqb am -> exists code, parallel_moves_code RV.rv_backend am = Ok code.
+Proof. exact RVSubst.rv_parallel_moves_total. Qed.
+Print Assumptions C11_rv_parallel_moves_total.
+
+(* THE PROPERTY on RISC-V.  `Z.of_nat (length re) <= 2048`: the increment k-1 of a shared object must fit
+   the 12-bit immediate of ADDI, which Sem/RVSem.v checks (the back end cannot name more than 14
+   variables anyway).  a_count p k: erase (k = 0), nothing (k = 1), header += k-1 (k >= 2) on the
+   abstract heap of RVSel.  Satisfiable: Example RVSubst.rv_substitute_hyps_satisfiable. *)
+Theorem C11_rv_substitute_simultaneous :
+  forall im i types ctx re l args lc code lc' s h,
+    NoDup (ids ctx) -> NoDup (new_ids re) ->
+    Z.of_nat (List.length re) <= 2048 ->
+    code_statement RV.rv_backend types (Substitute re (Call l args)) ctx lc = Ok (code, lc') ->
+    RVSel.placed im i code ->
+    RVSel.represents s h ->
+    (forall k b t, nth_error ctx k = Some b -> is_obj b = true -> tpos RV.rv_backend Fst k = Ok t ->
+       exists p, RVSem.rget s t = Some p /\ (p = 0 \/ RVSel.valid_addr p)) ->
+    exists (s' : RVSem.rstate) (order : list (nat * binding)) (ptr : nat -> Z),
+      RVSel.star im i s (RVSel.padd i (List.length code - 1)) s' /\
+      nth_error code (List.length code - 1) = Some (RV.JAL RV.ZERO (show_ident l +++ "_")) /\
+      (forall k j bk pj n a b, nth_error ctx k = Some bk -> nth_error re j = Some pj -> idn (snd pj) = idn (bvar bk) ->
+         (n = Snd \/ bchi bk <> Ext) -> tpos RV.rv_backend n k = Ok a -> tpos RV.rv_backend n j = Ok b ->
+         RVSem.rget s' b = RVSem.rget s a) /\
+      Permutation (map snd order) (filter is_obj ctx) /\
+      (forall k b, In (k, b) order -> nth_error ctx k = Some b /\
+                                      exists t, tpos RV.rv_backend Fst k = Ok t /\ RVSem.rget s t = Some (ptr k)) /\
+      RVSel.represents s' (fold_left (fun h kb => RVSubst.a_count (ptr (fst kb)) (count_targets re (snd kb)) h) order h) /\
+      (forall u, u <> RV.TEMP -> u <> RV.FREE -> (forall j n, tpos RV.rv_backend n j = Ok u -> (List.length re <= j)%nat) ->
+                 RVSem.rget s' u = RVSem.rget s u).
+Proof. exact RVSubst.rv_substitute_ok. Qed.
+Print Assumptions C11_rv_substitute_simultaneous.
